@@ -48,7 +48,8 @@ fn request_in(context: &str, props: &[PropSpec], cfg: &mut CfgSpec) -> String {
         "publish" => format!("publish 1 0 74 70 {p}"),
         "subscribe" => format!("subscribe {p} {}", filter_text("t", 1, false, false, 0)),
         "unsubscribe" => format!("unsubscribe {p} 74"),
-        "disconnect" => format!("disconnect 00 {p}"),
+        // `with_properties` on `Disconnect::success()` must supply the reason code itself
+        "disconnect" => format!("disconnect {} {p}", if props.len() % 2 == 1 { "none" } else { "00" }),
         _ => {
             cfg.will = Some(format!("77/70/1/0/{p}"));
             "publish 0 0 74 70 -".to_string()
@@ -439,6 +440,7 @@ pub fn maxsize(out: &mut Out, count: u64) {
         ("disconnect", Box::new(|_| "disconnect none none".to_string())),
         ("disconnect-rc", Box::new(|_| "disconnect 8e none".to_string())),
         ("disconnect-props", Box::new(|_| "disconnect 00 -".to_string())),
+        ("disconnect-props-only", Box::new(|_| "disconnect none -".to_string())),
         ("disconnect-reason", Box::new(|n| format!("disconnect 00 1f={}", hex("r".repeat(n).as_bytes())))),
     ];
     // (limit, kind, padding, size); fixed-size requests only next to their own size.
